@@ -584,7 +584,7 @@ pub fn enumerate_faults(text: &str, root: &toml_edit::Item, single: Option<Fault
                         })
                     };
                     // (keys with characters a renderer may escape are not compared: their spelling is free)
-                    let plain = keys.iter().all(|k| !k.is_empty() && k.chars().all(|ch| ch.is_ascii_alphanumeric() || matches!(ch, '_' | '-' | '.' | ' ')));
+                    let plain = keys.iter().all(|k| k.chars().all(|ch| ch.is_ascii_alphanumeric() || matches!(ch, '_' | '-' | '.' | ' ')));
                     if !plain {
                         out.stats.inc("probe.key_path_not_compared_unusual_keys");
                     }
